@@ -155,16 +155,29 @@ class TypedReads:
     parameter annotations, loop/comprehension variables over typed list fields, simple aliases, subscripts of typed
     fields, call-site propagation into helper methods and isinstance narrowing."""
 
-    def __init__(self, P: Program, pretty: bool, cls_qual: str = ASTSTR) -> None:
+    def __init__(self, P: Program, pretty: bool, cls_qual=ASTSTR, carriers: Optional[List[str]] = None) -> None:
+        """cls_qual: one class or a list of classes whose methods are analysed together (first definition of a name wins).
+        carriers: qualified names of non-node dataclasses whose annotated fields may hold nodes (e.g. _ParsedHRRule.rule)."""
         self.P = P
         self.pretty = pretty
-        self.cls: ClassInfo = P.cls(cls_qual)
+        quals = [cls_qual] if isinstance(cls_qual, str) else list(cls_qual)
+        self.classes: List[ClassInfo] = [P.cls(q) for q in quals]
+        self.cls: ClassInfo = self.classes[0]
         self.NC = e7.node_classes(P)
         self.names = set(self.NC)
+        self.carrier_fields: Dict[str, Dict[str, str]] = {}
+        for cq in carriers or []:
+            c = P.cls(cq)
+            self.carrier_fields[c.name] = {st.target.id: src(st.annotation) for st in c.node.body
+                                           if isinstance(st, ast.AnnAssign) and isinstance(st.target, ast.Name)}
         self.reads: Dict[Tuple[str, str], List[Tuple[str, int]]] = {}
         self.methods: Dict[str, ast.AST] = {}
-        for name, f in self.cls.methods.items():
-            self.methods[name] = specialise(f.node, pretty)
+        self.owners: Dict[str, FuncInfo] = {}
+        for c in self.classes:
+            for name, f in c.methods.items():
+                if name not in self.methods:
+                    self.methods[name] = specialise(f.node, pretty)
+                    self.owners[name] = f
         self._helper_types: Dict[Tuple[str, str], Set[str]] = {}
         self.envs: Dict[str, Dict[str, Set[str]]] = {}
         for _round in range(3):
@@ -175,10 +188,11 @@ class TypedReads:
     # ---- typing ---------------------------------------------------------------------------
     def _field_types(self, owners: Set[str], fld: str) -> Set[str]:
         out: Set[str] = set()
+        allnames = self.names | set(self.carrier_fields)
         for o in owners:
-            ann = self.NC[o].fields.get(fld)
+            ann = self.NC[o].fields.get(fld) if o in self.NC else self.carrier_fields.get(o, {}).get(fld)
             if ann:
-                out |= _ann_classes(ann, self.names) - {"AST"}
+                out |= _ann_classes(ann, allnames) - {"AST"}
         return out
 
     def _type(self, e: ast.AST, env: Dict[str, Set[str]]) -> Set[str]:
@@ -197,9 +211,13 @@ class TypedReads:
                 continue
             ts: Set[str] = set()
             if a.annotation is not None:
-                ts = _ann_classes(src(a.annotation), self.names) - {"AST"}
-            if not ts and name.startswith("visit_") and name[6:] in self.names:
-                ts = {name[6:]}
+                ts = _ann_classes(src(a.annotation), self.names | set(self.carrier_fields)) - {"AST"}
+            if not ts and name.startswith("visit_"):
+                base = name[6:]
+                while base and base not in self.names and "_" in base:
+                    base = base.rsplit("_", 1)[0]
+                if base in self.names and a is [x for x in fn.args.args if x.arg != "self"][0]:
+                    ts = {base}
             ts |= self._helper_types.get((name, a.arg), set())
             env[a.arg] = ts
         return env
@@ -233,6 +251,10 @@ class TypedReads:
                         nm = c.attr if isinstance(c, ast.Attribute) else (c.id if isinstance(c, ast.Name) else None)
                         if nm in self.names and nm != "AST":
                             env.setdefault(n.args[0].id, set()).add(nm)
+                elif isinstance(n, ast.AnnAssign) and isinstance(n.target, ast.Name):
+                    ts = _ann_classes(src(n.annotation), self.names | set(self.carrier_fields)) - {"AST"}
+                    if ts:
+                        env.setdefault(n.target.id, set()).update(ts)
         self.envs[name] = env
         # call-site propagation into helpers of the same class
         for n in ast.walk(fn):
@@ -257,12 +279,12 @@ class TypedReads:
         for n in ast.walk(fn):
             if isinstance(n, ast.Attribute) and isinstance(n.ctx, ast.Load) and id(n) not in dead_reads:
                 for owner in self._type(n.value, env):
-                    if n.attr in self.NC[owner].fields:
+                    if owner in self.NC and n.attr in self.NC[owner].fields:
                         self.reads.setdefault((owner, n.attr), []).append((name, n.lineno))
             if isinstance(n, ast.Call) and isinstance(n.func, ast.Name) and n.func.id == "getattr" and len(n.args) >= 2 \
                     and isinstance(n.args[1], ast.Constant):
                 for owner in self._type(n.args[0], env):
-                    if str(n.args[1].value) in self.NC[owner].fields:
+                    if owner in self.NC and str(n.args[1].value) in self.NC[owner].fields:
                         self.reads.setdefault((owner, str(n.args[1].value)), []).append((name, n.lineno))
 
     def receiver_types(self, method: str, e: ast.AST) -> Set[str]:
